@@ -114,8 +114,13 @@ func (b *batch) DelCurrent(it storage.Iter) {
 func (b *batch) Commit(ctx context.Context) (err error) {
 	for attempt := 0; ; attempt++ {
 		err = b.commitOnce(ctx)
-		if err != storage.ErrCASFailed || attempt >= maxConflictRetry || b.begin == nil {
+		if err != storage.ErrCASFailed || b.begin == nil {
 			return err
+		}
+		if attempt >= maxConflictRetry {
+			// still in conflict after every attempt: nothing was applied, and no condition of the batch was
+			// found false - that is an error, not a failed condition
+			return errors.Errorf("write conflict persisted over %d attempts", attempt+1)
 		}
 		// a write conflict only says that some record of a key of this batch (possibly the rollback record of
 		// an abandoned transaction) is newer than this transaction's snapshot; whether the conditions of the
